@@ -60,6 +60,10 @@ class BitBuffer:
         if self._type is None or self._type.size is None:
             raise ValueError("Invalid state")
 
+        if isinstance(data, bytes):
+            # The value of a char bit field may be given as (and defaults to) a byte string
+            data = int.from_bytes(data, "little" if self.endian == "<" else "big")
+
         if not 0 <= data < (1 << bits):
             # Anything else would end up in the bits of the neighbouring fields
             raise OverflowError(f"Value {data!r} does not fit in {bits} bits")
